@@ -96,6 +96,8 @@ package types
 //@        && msg.Price.Amount != 0 && msg.Order.DSeq != 0 && msg.Order.GSeq != 0 && msg.Order.OSeq != 0
 //@ func (Order).Price
 //@   ensures result == groupPrice(o.Spec)
+//@ func (Order).MatchAttributes
+//@   ensures result <==> subsetAttrs(o.Spec.Requirements.Attributes, attrs)
 //@ func (Order).MatchRequirements
 //@   requires len(prov) >= 1
 //@   requires forall k1: int, k2: int :: 1 <= k1 && k1 < k2 && k2 < len(prov) ==> prov[k1].Auditor != prov[k2].Auditor
@@ -142,7 +144,7 @@ package types
 //@   trusted
 //@   ensures evSig(result) == sigLease(2, e.ID, e.Price)
 
-//@ property C08 := (OrderID).Validate#*, (MsgCreateBid).ValidateBasic#*, (Order).Price#*, (Order).MatchRequirements#*
+//@ property C08 := (OrderID).Validate#*, (MsgCreateBid).ValidateBasic#*, (Order).Price#*, (Order).MatchRequirements#*, (Order).MatchAttributes#*
 //@ property C05 := EscrowAccountForBid#*, EscrowPaymentForLease#*, LeaseIDFromEscrowAccount#*
 //@ property C04 := EscrowAccountForBid#*, (Order).ID#*, (Bid).ID#*, (Lease).ID#*, MakeOrderID#*, (OrderID).GroupID#*, (OrderID).Equals#*, MakeBidID#*, (BidID).Equals#*, (BidID).LeaseID#*,
 //@                 (BidID).OrderID#*, (BidID).GroupID#*, (BidID).DeploymentID#*, MakeLeaseID#*, (LeaseID).Equals#*, (LeaseID).BidID#*, (LeaseID).OrderID#*,
